@@ -1,7 +1,7 @@
 (* GenEqRender.v — the Renderer's selector / LOD setters and its viewBox-to-pixel helpers (render/render.go),
    translated from the source with the receiver's fields as parameters: translated source = model *)
 From Coq Require Import ZArith Bool List Lia ZifyBool.
-From IVG Require Import SF NumCodec Color Calls Render Arc GoSem Tables GoSrc GenEqBase.
+From IVG Require Import SF NumCodec Color Calls Render Arc GoSem Tables GoSrc GenEqBase ColorProofs GenEqColor.
 Ltac Zify.zify_post_hook ::= Z.div_mod_to_equations.
 Import ListNotations.
 Local Open Scope Z_scope.
@@ -38,3 +38,29 @@ Proof. reflexivity. Qed.
 Theorem go_absVec2_eq (s : rstate f32) x y :
   go_render_Renderer_absVec2 (r_bx s) (r_by s) (r_scx s) (r_scy s) x y = (absX N32 s x, absY N32 s y).
 Proof. reflexivity. Qed.
+
+(* ---------- register writes: addressed modulo 64 as selector minus ADJ, resolved when stored, post-increment ---------- *)
+
+Lemma mod256_64 x : (x mod 256) mod 64 = x mod 64.
+Proof. lia. Qed.
+
+Section RegTie.
+Variable arc : rstate f32 -> bool -> f32 -> f32 -> f32 -> bool -> bool -> f32 -> f32 -> rstate f32.
+Variable s : rstate f32.
+
+Theorem go_SetNReg_eq adj incr x :
+  (r_nreg (rstep N32 arc s (CSetNReg adj incr x)), r_nsel (rstep N32 arc s (CSetNReg adj incr x))) =
+  go_render_Renderer_SetNReg (r_nreg s) (r_nsel s) adj incr x.
+Proof.
+  cbn [rstep upd_regs r_nreg r_nsel]. unfold go_render_Renderer_SetNReg, go_list_set, set_at. unwrap.
+  rewrite !mod256_64. destruct incr; reflexivity.
+Qed.
+
+Theorem go_SetCReg_eq adj incr c : wf_gcolor c -> wf_regs (r_pal s) -> wf_regs (r_creg s) ->
+  (r_creg (rstep N32 arc s (CSetCReg adj incr (abs_color c))), r_csel (rstep N32 arc s (CSetCReg adj incr (abs_color c)))) =
+  go_render_Renderer_SetCReg (r_creg s) (r_csel s) (r_pal s) adj incr c.
+Proof.
+  intros Wc Wp Wr. cbn [rstep upd_regs r_creg r_csel]. unfold go_render_Renderer_SetCReg, go_list_set, set_at. unwrap.
+  rewrite !mod256_64. rewrite (go_Resolve_eq 6 c (r_pal s) (r_creg s) Wc Wp Wr). destruct incr; reflexivity.
+Qed.
+End RegTie.
